@@ -117,6 +117,8 @@ const (
 	CtxOutputTypes = "outputTypes" // map[common2.OutputType]int, counts what was generated
 	CtxNoAuxPow    = "noAuxPow"    // bool: leave Header.AuxPow zero
 	CtxSmall       = "small"       // bool: generate small transactions (for blocks)
+	// CtxForceOutputType pins the payload type of every generated output.
+	CtxForceOutputType = "forceOutputType"
 )
 
 // buildOutput generates an Output that is well-formed for the tx version in
@@ -131,6 +133,9 @@ func buildOutput(f *Filler, v reflect.Value, path string) {
 		return
 	}
 	ot := OutputTypes[f.Choice(len(OutputTypes))]
+	if fo, ok := f.Ctx[CtxForceOutputType].(common2.OutputType); ok {
+		ot = fo
+	}
 	if m, ok := f.Ctx[CtxOutputTypes].(map[common2.OutputType]int); ok {
 		m[ot]++
 	}
@@ -142,8 +147,11 @@ func buildOutput(f *Filler, v reflect.Value, path string) {
 
 // three parallel slices of equal length
 func buildTransferCrossChainAsset(f *Filler, v reflect.Value, path string) {
-	n := f.Choice(f.Cfg.MaxSlice + 1)
 	tk := "payload.TransferCrossChainAsset."
+	n, _ := f.siteLen(f.Cfg.Rules[tk+"CrossChainAddresses"], SiteSlice, false, tk+"CrossChainAddresses", path+".CrossChainAddresses")
+	outer := f.S
+	f.S = NewRng(outer.Uint64())
+	defer func() { f.S = outer }()
 	for _, name := range []string{"CrossChainAddresses", "OutputIndexes", "CrossChainAmounts"} {
 		fv := v.FieldByName(name)
 		s := reflect.MakeSlice(fv.Type(), n, n)
@@ -211,6 +219,41 @@ func ELA() *Config {
 	c.Rules["program.Program.Parameter"] = Rule{MaxLen: 200}
 	c.Rules["auxpow.BtcTxIn.SignatureScript"] = Rule{MaxLen: 120}
 	c.Rules["auxpow.BtcTxOut.PkScript"] = Rule{MaxLen: 80}
+	// decoder caps (the limit passed to common.ReadVarBytes by the field's
+	// Deserialize) for fields that admit more than ordinary instances use;
+	// the boundary-length pass goes up to them. Fields without an entry are
+	// capped at their generator maximum (33-byte keys, 64-byte signatures ...).
+	const (
+		capSigScript = 64001            // crypto.MaxSignatureScriptLength
+		capMultiCode = 34003            // crypto.MaxMultiSignCodeLength
+		capMB        = 1024 * 1024      // payload.MaxPayloadDataSize & co.
+		capVarString = 16 * 1024 * 1024 // common.MaxVarStringLength
+	)
+	for k, n := range map[string]int{
+		"payload.CRCProposalReview.Signature": capSigScript, "payload.CRCProposalWithdraw.Signature": capSigScript,
+		"payload.CRCouncilMemberClaimNode.CRCouncilCommitteeSignature": capSigScript, "payload.CRInfo.Signature": capSigScript,
+		"payload.UnregisterCR.Signature": capSigScript, "payload.DPoSV2ClaimReward.Signature": capSigScript, "payload.ReturnVotes.Signature": capSigScript,
+		"payload.CRInfo.Code": capMultiCode, "payload.ProducerInfo.OwnerKey": capMultiCode, "payload.ProducerInfo.NodePublicKey": capMultiCode,
+		"payload.ProcessProducer.OwnerKey": capMultiCode, "payload.DPoSV2ClaimReward.Code": capMultiCode, "payload.ReturnVotes.Code": capMultiCode,
+		"payload.CreateNFT.TargetOwnerKey": capMultiCode, "payload.VotesWithLockTime.Candidate": capMultiCode,
+		"outputpayload.CandidateVotes.Candidate": capMultiCode, "outputpayload.Mapping.OwnerKey": capMultiCode,
+		"payload.CoinBase.Content": capMB, "payload.Record.Content": capMB, "payload.SideChainPow.Signature": capMB,
+		"payload.CRCProposalReview.OpinionData": capMB, "payload.CRCProposal.DraftData": capMB,
+		"payload.CRCProposalTracking.MessageData": 800 * 1024, "payload.CRCProposalTracking.SecretaryGeneralOpinionData": 200 * 1024,
+		"payload.BlockEvidence.Header": 8000000, "payload.BlockEvidence.BlockConfirm": 1000000, "payload.ProposalEvidence.BlockHeader": 8000000,
+		"outputpayload.CrossChainOutput.TargetData": 1024, "outputpayload.Withdraw.TargetData": 1024, "outputpayload.Mapping.SideProducerID": 256,
+		"common.Attribute.Data": capVarString,
+		"program.Program.Code":  10000, "program.Program.Parameter": 20000,
+		"auxpow.BtcTxIn.SignatureScript": 10000, "auxpow.BtcTxOut.PkScript": 10000,
+		// []uint8 lists written element-wise behind a var-int count
+		"payload.ReturnSideChainDepositCoin.Signers": 1 << 20, "payload.WithdrawFromSideChain.Signers": 1 << 20,
+	} {
+		r := c.Rules[k]
+		r.Cap = n
+		c.Rules[k] = r
+	}
+	// values (not lengths) written with common.WriteVarUint
+	c.VarUintKeys = []string{"payload.TransferCrossChainAsset.OutputIndexes"}
 
 	c.Types[reflect.TypeOf(common2.Output{})] = buildOutput
 	c.Types[reflect.TypeOf(payload.TransferCrossChainAsset{})] = buildTransferCrossChainAsset
